@@ -36,7 +36,7 @@ UNIT_TRUSTED["daemon_peer_tx"] = [
 ]
 
 UNIT_TRUSTED["table_cmp"] = [
-    "prelude p_table: packet::Attribute opaque with accessor contracts code()/value()/binary()/as_path_length() = uninterpreted spec functions (field reads of the packet crate; as_path_length's definition is checked separately by Kani, bounded); packet::evpn::mac_mobility uninterpreted; Ordering::{reverse,then_with,eq}, <bool as Ord>::cmp, Arc::as_ref; associated constants of packet::Attribute (R10: values checked at compile time)",
+    "prelude p_table: packet::Attribute opaque with accessor contracts code()/value()/binary()/as_path_length() = uninterpreted spec functions (field reads of the packet crate; as_path_length is verified against the segment-level hop count in unit packet_aspath, same check run); packet::evpn::mac_mobility uninterpreted; Ordering::{reverse,then_with,eq}, <bool as Ord>::cmp, Arc::as_ref; associated constants of packet::Attribute (R10: values checked at compile time)",
     "Source is kept outside Verus (atomics): src_role / src_router_id / src_stale / src_llgr_stale are uninterpreted reads (R13 accessor shims, Source::is_stale / is_llgr_stale assumed to return the flag: atomics read as plain fields)",
     "has_llgr_stale_community (chunks / try_into: outside the dialect) assumed to be a function of the attribute list",
     "A-C02-1 (type invariant of RibEntry / precondition of ecmp_paths): stored paths carry wire-valid attributes (LOCAL_PREF, ORIGIN, ORIGINATOR_ID hold a value) — guaranteed by Attribute::decode for wire input, NOT for gRPC-injected paths (C17, not claimed)",
@@ -73,7 +73,7 @@ UNIT_TRUSTED["table_policy"] = [
 ]
 
 UNIT_TRUSTED["daemon_export"] = [
-    "prelude p_export: packet::Attribute opaque with uninterpreted observers (code / value / binary / is_opaque / is_transitive = field reads of the packet crate); the AS_PATH edits as_path_prepend / as_path_prepend_confed / as_path_strip_confed / as_path_count, with_partial_bit, new_with_value, new_with_bin, empty_as_path are NOT verified here: they enter as uninterpreted functions with assumed contracts (result keeps the code; constructors return Some for the well-known codes 5, 8, 9, 10 — canonical_flags table, Kani harness c05_canonical_flags_table); 'prepended exactly once' therefore means 'as_path_prepend is applied exactly once to the confed-stripped path'",
+    "prelude p_export: packet::Attribute opaque with uninterpreted observers (code / value / binary / is_opaque / is_transitive = field reads of the packet crate); the AS_PATH edits as_path_prepend / as_path_prepend_confed / as_path_strip_confed / as_path_count, with_partial_bit, new_with_value, new_with_bin, empty_as_path are uninterpreted in this unit (the byte-level functions as_path_count / as_path_prepend / as_path_prepend_confed / as_path_strip_confed are verified in unit packet_aspath against byte specs, with lemmas that a prepend adds exactly one occurrence and one hop and keeps the structure, and that stripping removes exactly the confederation segments); assumed contracts here (result keeps the code; constructors return Some for the well-known codes 5, 8, 9, 10 — canonical_flags table, Kani harness c05_canonical_flags_table); 'prepended exactly once' therefore means 'as_path_prepend is applied exactly once to the confed-stripped path'",
     "table::Source kept outside Verus (atomics): remote_asn / local_asn read through accessor shims (R13); is_local (pointer identity), is_rr_client, is_rs_client assumed to return the role test they are named after; derive(PartialEq) on PeerRole structural; IpAddr::is_unspecified uninterpreted; Nexthop::addr = the address of the next hop",
     "prelude p_iter: std iterator chains (iter().filter/map/cloned/filter_map…collect, any, find, partition_point) replaced by verified loops with Seq-algebra contracts (rewrite R12 / R12c; assumed: std's adapters behave like these loops); R11 helpers (assumed): Arc::make_mut(..).retain(p) keeps exactly the elements satisfying p, u32::from(Ipv4Addr).to_be_bytes() = the address octets, [u8]::to_vec copies, chunks(4).any(== pat) = some aligned 4-byte chunk equals pat",
     "A-C09-1 (precondition of export_attrs / is_as_loop): every stored AS_PATH attribute holds a byte string (Attribute::decode guarantees it for wire input; as_path_* unwrap it)",
@@ -95,9 +95,15 @@ UNIT_TRUSTED["packet_mrt"] = [
     "NOT covered: daemon/src/mrt.rs (dump_table's peer-index / sequence-number bookkeeping, async), that embedded BGP data parses back (C04)",
 ]
 
+UNIT_TRUSTED["packet_aspath"] = [
+    "Attribute / AttributeData are wrapped in place (transparent); io::Cursor over the attribute bytes as (buffer, position) with byteorder reads as R11 helpers (`requires pos + k <= len`: every `.unwrap()` is an obligation; the `?` forms return Err iff the buffer is exhausted); Vec<u8> as a bytes::BufMut appends to the vector; R11 helpers vx_put_tail / vx_put_range for `dst.put(&src[a..b])`, vx_assert_eq_u8 for `assert_eq!` (the comparison becomes a precondition)",
+    "precondition aspath_wf: the AS_PATH bytes have the structure Attribute::decode validates (segment types 1..=4, segments fill the value; empty segments allowed) — under it `unreachable!()` in as_path_length is proved unreachable; for values built elsewhere (gRPC, policy actions) it is an assumption (A-C09-1)",
+    "as_path_prepend additionally requires len + 6 <= usize::MAX (Vec::with_capacity argument)",
+]
+
 # minimum number of functions that must produce obligations / of must-fail twins that must run
-FLOORS = {"daemon_fsm": 30, "daemon_gr": 4, "daemon_peer_tx": 7, "table_cmp": 20, "packet_validate": 1, "packet_parse": 1, "table_rpki": 3, "table_policy": 6, "daemon_export": 11, "packet_bmp": 6, "packet_mrt": 8}
-TWIN_FLOORS = {"daemon_fsm": 8, "daemon_gr": 3, "daemon_peer_tx": 2, "table_cmp": 4, "packet_validate": 1, "packet_parse": 1, "table_rpki": 1, "table_policy": 1, "daemon_export": 1, "packet_bmp": 1, "packet_mrt": 1}
+FLOORS = {"daemon_fsm": 30, "daemon_gr": 4, "daemon_peer_tx": 7, "table_cmp": 20, "packet_validate": 1, "packet_parse": 1, "table_rpki": 3, "table_policy": 6, "daemon_export": 11, "packet_bmp": 6, "packet_mrt": 8, "packet_aspath": 8}
+TWIN_FLOORS = {"daemon_fsm": 8, "daemon_gr": 3, "daemon_peer_tx": 2, "table_cmp": 4, "packet_validate": 1, "packet_parse": 1, "table_rpki": 1, "table_policy": 1, "daemon_export": 1, "packet_bmp": 1, "packet_mrt": 1, "packet_aspath": 1}
 
 PLAN = {
     "C01": {"verus": ["daemon_peer_tx", "daemon_export"], "level": "proof",
@@ -108,12 +114,15 @@ PLAN = {
             "explanation": "BOUNDED stand-in, not a proof: Kani/CBMC harnesses on the real IdAllocator::{alloc,dealloc} with <= 4 bitmap words (256 live ids per shard), every word over its full 64-bit domain, under the representation invariant 'no trailing zero word': alloc returns the least free id, which no live prefix holds, marks exactly it live and keeps the shard index in bits 31..24; dealloc frees exactly its id and restores the invariant. Only the identifier-uniqueness clause of C06 is addressed; the change-stream fold and the end-of-deferral clause live in Table::{insert,remove,end_deferral,...} (note T) and are not covered."},
     "C07": {"verus": ["daemon_fsm", "packet_parse"], "level": "proof"},
     "C08": {"verus": ["daemon_fsm"], "level": "proof"},
-    "C09": {"verus": ["daemon_export"], "level": "proof"},
+    "C09": {"verus": ["daemon_export", "packet_aspath"], "level": "proof",
+            "fn_filter": {"packet_aspath": ["as_path_count", "as_path_prepend", "as_path_prepend_confed", "as_path_strip_confed",
+                                            "lemma_prepend_props", "lemma_strip_props", "lemma_seg_count_shift", "lemma_seg_count_first", "lemma_be32_roundtrip"]}},
     "C10": {"verus": ["daemon_gr"], "level": "proof"},
     "C12": {"verus": ["table_rpki"], "kani": ["c12_covering_key_v4", "c12_covering_key_v6"], "level": "proof"},
     "C14": {"verus": ["table_policy"], "level": "proof"},
     "C16": {"verus": ["daemon_fsm"], "kani": ["c16_ipnet_contains_v4", "c16_ipnet_contains_v6"], "level": "proof"},
-    "C02": {"verus": ["table_cmp"], "level": "proof"},
+    "C02": {"verus": ["table_cmp", "packet_aspath"], "level": "proof",
+            "fn_filter": {"packet_aspath": ["as_path_length"]}},
     "C19": {"verus": ["packet_bmp", "packet_mrt"], "level": "proof"},
     "C03": {"verus": ["packet_parse"], "level": "proof",
             "kani": ["bfd_decode_total_and_exact", "bfd_decode_mustfail", "rtr_frame_length_contract",
